@@ -101,6 +101,9 @@ pub struct SimState {
     pub sched_started: Option<i64>,
     pub base_dir: PathBuf,
     pub fatals: Vec<String>,
+    /// Single-step mode: signalled when the scheduler claims a task.
+    pub step_tx: Option<std::sync::mpsc::Sender<()>>,
+    pub tasks_claimed: u64,
 }
 
 const ONE_OFF_KEYS: usize = 48;
@@ -124,6 +127,8 @@ impl SimState {
             sched_started: None,
             base_dir: PathBuf::new(),
             fatals: Vec::new(),
+            step_tx: None,
+            tasks_claimed: 0,
         }
     }
 
@@ -296,6 +301,12 @@ impl Hooks for SimHooks {
         let verdict = {
             let mut st = state();
             st.kv_mutations += 1;
+            if op == "move_value" && scope == Some("pending") {
+                st.tasks_claimed += 1;
+                if let Some(tx) = &st.step_tx {
+                    let _ = tx.send(());
+                }
+            }
             let desc = format!(
                 "kv:{}:{}:{}:{}",
                 CUR_INSTANCE.with(|c| c.get()),
